@@ -33,6 +33,7 @@ import (
 // Each sampled service maps the script's payload number onto its own messages:
 //
 //	onoff    OnOffApi    GetOnOff (unary)     request name "m<n>", response state n
+//	update   OnOffApi    UpdateOnOff (unary)  request name "m<n>" + on_off.state n, response state n
 //	                     PullOnOff (sstream)  request name "m<n>", response changes[0].name "m<n>"
 //	info     OnOffInfo   DescribeOnOff (unary) response resource_support.writable_fields.paths[0] "m<n>"
 //	metadata MetadataApi GetMetadata (unary)  response name "m<n>";  PullMetadata (sstream) changes[0].name
@@ -45,10 +46,12 @@ type viaSvc struct {
 
 // "<svc>+us": the typed client is built by the caller on the connection the generated wrapper hands out through
 // UnwrapService() (pkg/wrap.ServiceUnwrapper) — how routers and proxies reach a wrapped server.
-var viaNames = []string{"onoff", "info", "metadata", "onoff+us", "info+us", "metadata+us"}
+var viaNames = []string{"onoff", "info", "metadata", "update", "onoff+us", "info+us", "metadata+us", "update+us"}
+
+var viaBase = []string{"onoff", "info", "metadata", "update"}
 
 func init() {
-	for _, n := range []string{"onoff", "info", "metadata"} {
+	for _, n := range viaBase {
 		viaSvcs[n+"+us"] = viaSvcs[n]
 	}
 }
@@ -80,6 +83,17 @@ var viaSvcs = map[string]viaSvc{
 				return -1
 			}
 			return unword(ch[0].Name)
+		},
+	},
+	// the second unary method of the same generated wrapper (a write: the request carries a message of its own)
+	"update": {
+		unary: func(typed any, ctx context.Context, n int, opts ...grpc.CallOption) (int, proto.Message, proto.Message, error) {
+			req := &traits.UpdateOnOffRequest{Name: word(n), OnOff: &traits.OnOff{State: traits.OnOff_State(n)}}
+			res, err := typed.(traits.OnOffApiClient).UpdateOnOff(ctx, req, opts...)
+			if err != nil {
+				return 0, req, nil, err
+			}
+			return int(res.State), req, res, nil
 		},
 	},
 	"info": {
@@ -148,15 +162,16 @@ type endpoint struct {
 func wrapEndpoint(s *scripted, cc grpc.ClientConnInterface) *endpoint {
 	ep := &endpoint{cc: cc, servers: map[string]any{}, typed: map[string]any{}}
 	oo, oi, md := &onoffSrv{s: s}, &onoffInfoSrv{s: s}, &metadataSrv{s: s}
-	ep.servers["onoff"], ep.servers["info"], ep.servers["metadata"] = oo, oi, md
+	ep.servers["onoff"], ep.servers["info"], ep.servers["metadata"], ep.servers["update"] = oo, oi, md, oo
 	wo, wi, wm := onoffpb.WrapApi(oo), onoffpb.WrapInfo(oi), metadatapb.WrapApi(md)
-	ep.typed["onoff"], ep.typed["info"], ep.typed["metadata"] = wo, wi, wm
+	ep.typed["onoff"], ep.typed["info"], ep.typed["metadata"], ep.typed["update"] = wo, wi, wm, wo
 	co, _ := wo.UnwrapService()
 	ci, _ := wi.UnwrapService()
 	cm, _ := wm.UnwrapService()
 	ep.typed["onoff+us"] = traits.NewOnOffApiClient(co)
 	ep.typed["info+us"] = traits.NewOnOffInfoClient(ci)
 	ep.typed["metadata+us"] = traits.NewMetadataApiClient(cm)
+	ep.typed["update+us"] = ep.typed["onoff+us"]
 	return ep
 }
 
@@ -172,7 +187,8 @@ func grpcEndpoint(cc *grpc.ClientConn) *endpoint {
 		"info":     traits.NewOnOffInfoClient(cc),
 		"metadata": traits.NewMetadataApiClient(cc),
 	}}
-	for _, n := range []string{"onoff", "info", "metadata"} {
+	ep.typed["update"] = ep.typed["onoff"]
+	for _, n := range viaBase {
 		ep.typed[n+"+us"] = ep.typed[n]
 	}
 	return ep
@@ -280,6 +296,10 @@ type onoffSrv struct {
 }
 
 func (o *onoffSrv) GetOnOff(ctx context.Context, req *traits.GetOnOffRequest) (*traits.OnOff, error) {
+	return runTUnary(o.s, ctx, req.Name, req, func(n int) *traits.OnOff { return &traits.OnOff{State: traits.OnOff_State(n)} })
+}
+
+func (o *onoffSrv) UpdateOnOff(ctx context.Context, req *traits.UpdateOnOffRequest) (*traits.OnOff, error) {
 	return runTUnary(o.s, ctx, req.Name, req, func(n int) *traits.OnOff { return &traits.OnOff{State: traits.OnOff_State(n)} })
 }
 
